@@ -1862,7 +1862,10 @@ class Controller:
 
         retval = experiment.model.codes.restartCodes["RestartCouldNotInitiate"]
         #Sleep for 30 in order to let system stability to return
-        component.controllerState = experiment.model.codes.SUSPENDED_STATE
+        if component.suspend() is False:
+            # VV: The component was stopped while we were waiting to find out if the system is stable
+            self.log.info("%s has been asked to finish - will not restart it" % component.specification.reference)
+            return retval
         count = 0
         while count < 4:
             self.log.info("Will wait 30 secs before next stability check")
@@ -1878,7 +1881,12 @@ class Controller:
         self.log.warning("Waited %d seconds (max 120) - will attempt restart of %s" % (
             count*30, component.specification.reference))
 
-        component.controllerState = None
+        if component.resume() is False:
+            # VV: The component received its final state while it was suspended (e.g. the stage is being stopped)
+            self.log.info("%s is no longer suspended (%s) - will not restart it" % (
+                component.specification.reference, component.state))
+            return retval
+
         try:
             retval = component.restart(reason=exitReason, code=returncode)
         except Exception as error:
